@@ -114,9 +114,7 @@ func VerifH02c() {
 	w := newWorld(stdConfig(), []string{"a", "b"})
 	a := alpha{tx: true, gc: true, drain: true, maxTx: 2, levels: allLevels}
 	if nd.Tier() == 0 {
-		w.keys = []string{"a"}
-		// quick: one key, the two ends of the level range plus the snapshot level
-		a.levels = []model.TxIsoLevel{fs_db.IsoLevelReadUncommitted, fs_db.IsoLevelReadCommitted, fs_db.IsoLevelRepeatableRead}
+		w.keys = []string{"a"} // quick: one key; all four levels (each has its own dispatch arm in Get, GetKeys and Commit)
 	}
 	for i := 0; i < k; i++ {
 		w.step(a, "H02c")
@@ -136,9 +134,9 @@ func VerifH03c() {
 	k := histSteps(3, 5)
 	nd.Bound("H03c.steps", k)
 	w := newWorld(stdConfig(), []string{"a", "b"})
-	a := alpha{tx: true, maxTx: 2, levels: []model.TxIsoLevel{fs_db.IsoLevelReadCommitted, fs_db.IsoLevelSerializable}}
+	a := alpha{tx: true, maxTx: 2, levels: allLevels}
 	// a transaction is open from the start (saves one step of every history)
-	w.begin(a.levels[nd.Choice("level0", 2)])
+	w.begin(a.levels[nd.Choice("level0", 4)])
 	for i := 0; i < k; i++ {
 		w.step(a, "H03c")
 		w.checkReads("H03c")
@@ -172,3 +170,37 @@ func VerifH05b() {
 }
 
 var _ = errors.Is
+
+// VerifH02d: the level dispatch of store.Get, store.GetKeys and transaction.Commit: one scripted
+// history that tells all four levels apart, run for every level (reads of the transaction under
+// test, then its commit).
+func VerifH02d() {
+	concreteCounter = nd.Choice("counter", 2) == 0
+	w := newWorld(stdConfig(), []string{"a", "b", "c"})
+	level := allLevels[nd.Choice("level", 4)]
+	nd.Assert(w.doSet(0, "a", w.freshVal(), 0) == nil, "H02d.pre")
+	nd.Assert(w.doSet(0, "c", w.freshVal(), 0) == nil, "H02d.pre")
+	t := w.begin(level)
+	// after t began: a committed overwrite of a, a committed delete of c, another transaction's
+	// uncommitted write of b
+	nd.Assert(w.doSet(0, "a", w.freshVal(), 0) == nil, "H02d.overwrite")
+	nd.Assert(w.doDelete(0, "c") == nil, "H02d.delete")
+	u := w.begin(fs_db.IsoLevelReadCommitted)
+	nd.Assert(w.doSet(u, "b", w.freshVal(), 0) == nil, "H02d.other-tx-write")
+	w.checkReads("H02d.reads")
+	// t writes a key that was overwritten since it began, and one that was not
+	switch nd.Choice("t-writes", 3) {
+	case 0:
+		nd.Assert(w.doSet(t, "a", w.freshVal(), 0) == nil, "H02d.t-write")
+	case 1:
+		nd.Assert(w.doSet(t, "b", w.freshVal(), 0) == nil, "H02d.t-write")
+	case 2:
+		nd.Assert(w.doDelete(t, "c") == nil, "H02d.t-delete")
+	}
+	w.checkReads("H02d.reads2")
+	w.commit(t, "H02d")
+	w.checkReads("H02d.after-commit")
+	w.rollback(u, "H02d")
+	w.checkReads("H02d.end")
+	nd.Reach("H02d.end")
+}
